@@ -44,6 +44,11 @@ def main():
             res["demo_clean"] = rc
         rc, out = sh(["git", "apply", patch], wt)
         if rc != 0:
+            # stored patches were written against 1abffb4; a later one-line `fix:` commit next to a hunk only disturbs its context lines
+            rc, out = sh(["git", "apply", "-C1", patch], wt)
+            if rc == 0:
+                res["applied_with_reduced_context"] = True
+        if rc != 0:
             res["apply"] = out.strip()[:300]
             print(json.dumps(res) if a.json else res)
             return 2
